@@ -26,6 +26,11 @@ type Prop struct{}
 func (Prop) ID() string    { return ID }
 func (Prop) Level() string { return "fault_enumeration" }
 
+// StallSeconds: a correct interpreter polls the simulated context at every
+// step, so every run is cut by the step cap within milliseconds; a child that
+// makes no progress for this long is executing without polling.
+func (Prop) StallSeconds(tier string) int { return 25 }
+
 // Data is the replayable description of one cancelled run.
 type Data struct {
 	Src      string             `json:"src"`
